@@ -244,7 +244,7 @@ FmmCase genCase(const GenCfg& g){
         c.lstop = 1;
     }
     if(g.lstops && U(0, 3)) c.lstop = U(0, c.height + 2);
-    if(g.histories){
+    if(g.histories && (g.historyOneIn <= 1 || U(0, g.historyOneIn) == 0)){
         // ordered partition of the far-field chain P2M<=M2M<=M2L<=L2L<=L2P into calls; P2P anywhere
         const int P2P = 1, chain[5] = {2, 4, 8, 16, 32};
         std::vector<int> calls; int cur = 0;
